@@ -68,6 +68,37 @@ pub fn big(sink: &mut Sink, cfg: &str) {
     }
 }
 
+/// string literals: every ordered pair of \uXXXX escapes over the surrogate-class boundaries, lone escapes at the
+/// boundaries, every simple escape, both hex cases, pairs at plane boundaries — as values and as object keys
+pub fn strings(sink: &mut Sink, cfg: &str, r: &mut Rng, thorough: bool) {
+    let bounds: [u32; 16] = [0x0000, 0x001f, 0x0020, 0x007f, 0x0080, 0x07ff, 0x0800, 0xd7ff, 0xd800, 0xd801, 0xdbff, 0xdc00, 0xdc01, 0xdfff, 0xe000, 0xffff];
+    for a in bounds.iter() {
+        let one = format!("\"\\u{:04x}\"", a);
+        emit(sink, cfg, one.as_bytes(), r, "uni1");
+        emit(sink, cfg, format!("{{{}:1}}", one).as_bytes(), r, "uni1key");
+        emit(sink, cfg, format!("\"\\u{:04X}x\"", a).as_bytes(), r, "uni1");
+        for b in bounds.iter() {
+            emit(sink, cfg, format!("\"\\u{:04x}\\u{:04X}\"", a, b).as_bytes(), r, "uni2");
+            emit(sink, cfg, format!("\"a\\u{:04x}\\u{:04x}z\"", a, b).as_bytes(), r, "uni2");
+        }
+    }
+    // every plane: first, middle and last scalar written as a surrogate pair
+    for plane in 1..=16u32 {
+        for off in [0u32, 1, 0x7fff, 0xfffe, 0xffff] {
+            let cp = plane * 0x10000 + off; let v = cp - 0x10000;
+            let (hi, lo) = (0xd800 + (v >> 10), 0xdc00 + (v & 0x3ff));
+            emit(sink, cfg, format!("\"\\u{:04x}\\u{:04x}\"", hi, lo).as_bytes(), r, "pair");
+            emit(sink, cfg, format!("[\"\\u{:04X}\\u{:04X}\\u{:04x}\\u{:04x}\"]", hi, lo, hi, lo).as_bytes(), r, "pair");
+        }
+    }
+    for c in 0..=255u8 { emit(sink, cfg, &[b'"', b'\\', c, b'"'], r, "esc1"); }
+    let n = if thorough { 20000 } else { 2000 };
+    for _ in 0..n {
+        let hi = 0xd800 + r.below(0x400) as u32; let lo = 0xdc00 + r.below(0x400) as u32;
+        emit(sink, cfg, format!("\"\\u{:04x}\\u{:04x}\"", hi, lo).as_bytes(), r, "pair-rand");
+    }
+}
+
 pub fn run(sink: &mut Sink, prop: &str, thorough: bool, seed: u64) {
     let mut r = Rng::new(seed);
     let cfg = cfg_tag();
@@ -79,6 +110,10 @@ pub fn run(sink: &mut Sink, prop: &str, thorough: bool, seed: u64) {
             let b: Vec<u8> = (0..n).map(|_| if r.chance(3, 4) { *r.pick(b"[]{},:\"\\u0123456789aeE+-.ntfls \n") } else { r.next() as u8 }).collect();
             emit(sink, &cfg, &b, &mut r, "rand");
         }
+    }
+    if prop == "C05" || prop == "C14" || prop == "C02" || prop == "C01" {
+        strings(sink, &cfg, &mut r, thorough);
+        if prop == "C05" { return; }
     }
     if prop == "C09" || prop == "C11" {
         // multi-line documents and their mutations, several chunkings each
